@@ -99,6 +99,17 @@ Theorem union_construction_assigns_arguments_or_defaults : forall V (fields : li
   run_init V (generate_union_init V fields) args = Ok (init_spec V fields args).
 Proof. exact union_init_assigns_arguments_or_defaults. Qed.
 Print Assumptions union_construction_assigns_arguments_or_defaults.
+(* T(v1, ..., vk) with k <= number of fields: bound to the first k parameters, stored by __init__, read back as value-or-default; more
+   values than fields are a TypeError *)
+Theorem positional_construction : forall V (fields : list (string * V)) pos, length pos <= length fields -> NoDup (map fst fields) ->
+  exists args, bind_args V (generate_init V fields) pos [] = Ok args /\
+    exists attrs, run_init V (generate_init V fields) args = Ok attrs /\
+    forall i nm d, nth_error fields i = Some (nm, d) -> lookup nm attrs = Some (match nth i pos None with Some v => v | None => d end).
+Proof. exact positional_construction. Qed.
+Theorem too_many_positional_values_are_rejected : forall V (fields : list (string * V)) pos kw, length fields < length pos ->
+  bind_args V (generate_init V fields) pos kw = Err EType.
+Proof. exact too_many_positional_values_are_rejected. Qed.
+Print Assumptions positional_construction.
 Print Assumptions equal_exactly_when_same_type_and_all_fields_equal.
 Print Assumptions equal_instances_hash_equally.
 Print Assumptions falsy_exactly_when_all_fields_are.
